@@ -37,6 +37,16 @@ def splitFrom (off : Nat) (l : List Int) : List Nat → List (List Int)
 
 def splitAtCuts (l : List Int) (cuts : List Nat) : List (List Int) := splitFrom 0 l cuts
 
+/-- `np.split(x, cuts)` for ANY list of non-negative split points, as NumPy cuts it (`div = [0] + cuts + [N]`, piece i = `x[div[i]:div[i+1]]`, Python
+slices clamp): split points that step back give an empty piece and then repeat rows.  `_split_tsd` applies the same rule to the index and to the data. -/
+def sliceL {α : Type} (l : List α) (a b : Nat) : List α := (l.drop a).take (b - a)
+
+def npSplitFrom {α : Type} (l : List α) (prev : Nat) : List Nat → List (List α)
+  | [] => [l.drop prev]
+  | c :: cs => sliceL l prev c :: npSplitFrom l c cs
+
+def npSplit {α : Type} (l : List α) (cuts : List Nat) : List (List α) := npSplitFrom l 0 cuts
+
 /-- `_concatenate_tsd` along time: accepted iff the stacked index is strictly increasing -/
 def concatAccepts (ts : List (List Int)) : Bool :=
   let all := ts.flatten
